@@ -26,7 +26,39 @@ func possibleToks(c *Ctx, atoms []Atom, key string) map[string]bool {
 			}
 		}
 	}
+	// a module predicate applied to the token itself (anyClosingBracket(top), written with a table of traits
+	// or a bit set): folded at every token type, like the shift predicate (A8)
+	tokKey := strings.TrimSuffix(key, ".Typ")
+	if tokKey != key {
+		vals := c.tokTypeConsts()
+		for _, a := range atoms {
+			if a.Kind != "call" || a.Fn == nil || !inModule(a.Fn) || len(a.Args) != 1 || len(a.Fn.Params) != 1 {
+				continue
+			}
+			if c.key(a.Args[0], a.Env) != tokKey || !isNamed(a.Fn.Params[0].Type(), pkgLex, "Token") {
+				continue
+			}
+			leaves, table, why := c.decisionTable(a.Fn, []string{"$0"}, tokDomain(vals))
+			if why != "" || len(leaves) != 1 {
+				continue
+			}
+			for name, v := range vals {
+				if res, ok := table[fmt.Sprint([]int64{v})]; ok && res != a.Pos {
+					delete(possible, "lex."+name)
+				}
+			}
+		}
+	}
 	return possible
+}
+
+func tokDomain(vals map[string]int64) []int64 {
+	var out []int64
+	for _, v := range vals {
+		out = append(out, v)
+	}
+	sort.Slice(out, func(i, j int) bool { return out[i] < out[j] })
+	return out
 }
 
 func ruleLITTYPE(c *Ctx, r *Report) {
@@ -1250,8 +1282,17 @@ func ruleREC(c *Ctx, r *Report) {
 	// operands handed to fmt / json in renderers & encoder are strict sub-terms
 	rops := c.rendererOps()
 	nf := 0
-	for fn := range rops {
-		for _, b := range fn.Blocks {
+	// the node parameter of a renderer (functions take it first, methods of a style type second)
+	nodeKey := func(fn *ssa.Function) string {
+		for i, p := range fn.Params {
+			if isExprPtr(p.Type()) {
+				return fmt.Sprintf("$%d.", i)
+			}
+		}
+		return "$0."
+	}
+	checkFmt := func(host, root *ssa.Function) {
+		for _, b := range host.Blocks {
 			for _, in := range b.Instrs {
 				_, _, operands, ok := c.fmtCall(in)
 				if !ok {
@@ -1266,13 +1307,114 @@ func ruleREC(c *Ctx, r *Report) {
 					} else if !isEmptyInterface(op.Type()) {
 						continue
 					}
+					in, op := in, op
+					c.withContexts(host, root, 0, func(_ []Atom) {
+						nf++
+						k := c.key(op, nil)
+						key := fnName(root) + "|fmt-operand|" + k
+						if strings.HasPrefix(k, nodeKey(root)) {
+							r.ok(rule, key, c.instrPos(in), "strict sub-term of the node")
+						} else {
+							r.bad(rule, key, c.instrPos(in), "a renderer passes "+k+" to fmt, which re-enters String/GoString on it: not a strict sub-term of the node being rendered, so printing may not terminate")
+						}
+					})
+				}
+			}
+		}
+	}
+	for fn := range rops {
+		checkFmt(fn, fn)
+	}
+	// helpers shared by the renderers that do the formatting for them (st.operand(e.Left)): the operand is the
+	// helper's parameter, so every call site must hand over a strict sub-term of the node its renderer prints
+	var argOK func(h *ssa.Function, idx int, depth int, seen map[*ssa.Function]bool) (string, bool)
+	argOK = func(h *ssa.Function, idx int, depth int, seen map[*ssa.Function]bool) (string, bool) {
+		sites, priv := c.privateHelper(h)
+		if !priv || depth > 3 || seen[h] {
+			return "helper " + fnName(h) + " is not private", false
+		}
+		seen[h] = true
+		for _, cs := range sites {
+			g := cs.Parent()
+			if idx >= len(cs.Call.Args) {
+				return "arity", false
+			}
+			a := cs.Call.Args[idx]
+			k := c.key(a, nil)
+			if rops[g] != nil {
+				if !strings.HasPrefix(k, nodeKey(g)) {
+					return fnName(g) + " passes " + k, false
+				}
+				nf++ // one operand of one renderer, formatted through the helper
+				continue
+			}
+			// another helper handing on its own parameter
+			if pa, ok := c.resolve(a, nil).(*ssa.Parameter); ok {
+				j := -1
+				for i, q := range g.Params {
+					if q == pa {
+						j = i
+					}
+				}
+				if j >= 0 {
+					if why, ok := argOK(g, j, depth+1, seen); !ok {
+						return why, false
+					}
+					continue
+				}
+			}
+			if strings.Contains(k, ".Left") || strings.Contains(k, ".Right") || strings.Contains(k, ".Min") || strings.Contains(k, ".Max") {
+				// a field of a sub-term reached inside a helper (elements of the list, the ends of the boundary)
+				continue
+			}
+			return fnName(g) + " passes " + k, false
+		}
+		return "", true
+	}
+	for _, h := range c.Funcs {
+		if fnPkgPath(h) != pkgExpr || rops[h] != nil || h.Parent() != nil {
+			continue
+		}
+		reachedFromRenderer := false
+		for fn := range rops {
+			if c.calls(fn, h) {
+				reachedFromRenderer = true
+			}
+		}
+		if !reachedFromRenderer {
+			continue
+		}
+		for _, b := range h.Blocks {
+			for _, in := range b.Instrs {
+				_, _, operands, ok := c.fmtCall(in)
+				if !ok {
+					continue
+				}
+				for _, op := range operands {
+					mi, isMI := op.(*ssa.MakeInterface)
+					if isMI {
+						if !isExprPtr(mi.X.Type()) {
+							continue
+						}
+					} else if !isEmptyInterface(op.Type()) {
+						continue
+					}
+					pa, isParam := c.resolve(op, nil).(*ssa.Parameter)
+					if !isParam {
+						continue // a sub-term computed in the helper: covered when the helper is itself registered
+					}
+					idx := -1
+					for i, q := range h.Params {
+						if q == pa {
+							idx = i
+						}
+					}
 					nf++
-					k := c.key(op, nil)
-					key := fnName(fn) + "|fmt-operand|" + k
-					if strings.HasPrefix(k, "$0.") {
-						r.ok(rule, key, c.instrPos(in), "strict sub-term of the node")
+					key := fnName(h) + "|fmt-operand|" + c.key(op, nil)
+					if why, ok := argOK(h, idx, 0, map[*ssa.Function]bool{}); ok {
+						r.ok(rule, key, c.instrPos(in), "every caller hands over a strict sub-term of the node it renders")
 					} else {
-						r.bad(rule, key, c.instrPos(in), "a renderer passes "+k+" to fmt, which re-enters String/GoString on it: not a strict sub-term of the node being rendered, so printing may not terminate")
+						r.bad(rule, key, c.instrPos(in), "a helper of the renderers passes its parameter to fmt, which re-enters String/GoString on it, and not every caller hands over a strict sub-term of the node being rendered ("+why+"): printing may not terminate")
 					}
 				}
 			}
